@@ -74,12 +74,14 @@ func TestProp(t *testing.T) {
 
 	only, skipMain := env.Only("c11")
 	if !skipMain {
-		// stacks are independent; two at a time keep the cores busy (each runs one worker per upstream)
+		// stacks are independent: eight at a time, two workers each. sso's back-channel HTTP client keeps two
+		// idle connections per authenticator, so two workers per stack reuse connections instead of dialling
+		// (and spawning server + transport goroutines) for every provider call
 		onlyCfg := -1
 		if only >= 0 {
 			onlyCfg = only / perConfig
 		}
-		vh.ForEach(nConfigs, 2, onlyCfg, func(ci int) { runConfig(rep, env, ci, perConfig, only) })
+		vh.ForEach(nConfigs, 8, onlyCfg, func(ci int) { runConfig(rep, env, ci, perConfig, only) })
 	}
 	onlyE, skipE := env.Only("c11-empty")
 	if !skipE && only < 0 {
@@ -128,12 +130,17 @@ func runConfig(rep *vh.Report, env vh.Env, ci, perConfig, only int) {
 		runCase(rep, env, ps, ups[j%nUpstreams], ci, lo+j, j/nUpstreams)
 		return
 	}
-	// one worker per upstream: the proxy coalesces concurrent group lookups per (upstream, e-mail, groups),
-	// so two concurrent cases of one upstream with the same e-mail would share one provider answer (C16's
-	// business); cases of one upstream therefore run one after the other.
-	vh.ForEach(nUpstreams, nUpstreams, -1, func(ui int) {
-		for k := 0; k*nUpstreams+ui < perConfig; k++ {
-			runCase(rep, env, ps, ups[ui], ci, lo+k*nUpstreams+ui, k)
+	// an upstream belongs to one worker: the proxy coalesces concurrent group lookups per (upstream, e-mail,
+	// groups), so two concurrent cases of one upstream with the same e-mail would share one provider answer
+	// (C16's business); cases of one upstream therefore run one after the other.
+	const workers = 2
+	vh.ForEach(workers, workers, -1, func(w int) {
+		for k := 0; k*nUpstreams < perConfig; k++ {
+			for ui := w; ui < nUpstreams; ui += workers {
+				if j := k*nUpstreams + ui; j < perConfig {
+					runCase(rep, env, ps, ups[ui], ci, lo+j, k)
+				}
+			}
 		}
 	})
 	rep.Count("authenticator_calls", int(ps.Auth.Total()))
